@@ -147,11 +147,25 @@ def eval_case(ctx, case):
         text = f"---\nmyst:\n  footnote_sort: {'true' if sort else 'false'}\n  footnote_transition: {'true' if trans else 'false'}\n---\n\n" + text
         kw = {"myst_footnote_sort": not sort, "myst_footnote_transition": not trans} if via == "front-over-opposite-global" else {}
         detail["text"] = text
+    front_end = case.get("front_end", "docutils")
     try:
-        doc, wtext = drive.parse(text, doctitle_xform=False, **kw)
+        if front_end == "sphinx":
+            # the same arrangement through the Sphinx front end (MyST replaces Sphinx' unreferenced-footnote detector)
+            b = drive.SphinxBuild({"index.md": text}, conf={k: v for k, v in kw.items()} | {"keep_warnings": True}, builder="dummy")
+            try:
+                b.build()
+                doc = b.doctree("index").deepcopy()
+                wtext = "\n".join("index.md:0: (WARNING/2) " + r["msg"] + (f" [{r['type']}.{r['subtype']}]" if r["type"] else "") for r in b.records)
+            finally:
+                b.close()
+            if len(doc.children) == 1 and isinstance(doc[0], nodes.section) and False:
+                pass
+        else:
+            doc, wtext = drive.parse(text, doctitle_xform=False, **kw)
     except Exception as e:  # noqa: BLE001
         ctx.count("no_document:" + type(e).__name__)
         return False
+    ctx.count("front_end:" + front_end)
     first_def, number, dups, unref, refs = model(events, sort)
     detail["model"] = {"labels": number, "dups": dups, "unreferenced": unref}
     detail["doctree"] = doc.pformat()[:6000]
@@ -291,6 +305,16 @@ def make_case(R):
 def run_shard(ctx):
     R = ctx.rng
     n = 3000 if ctx.tier == "quick" else 120000
+    ns = 25 if ctx.tier == "quick" else 1500
+    for i in range(ns):
+        case = make_case(R)
+        case["front_end"] = "sphinx"
+        nt = eval_case(ctx, case)
+        ctx.case(repr(case), bool(nt))
+        if i == 0:
+            ctx.sample(case)
+        if ctx.time_left() < ctx.budget_s * 0.7:
+            break
     for i in range(n):
         case = make_case(R)
         nt = eval_case(ctx, case)
@@ -303,7 +327,7 @@ def run_shard(ctx):
 
 def finalize(m, tier):
     c = m["counters"]
-    for k, lo in (("docs_judged", 10000), ("refs_checked", 20000), ("dups_expected", 1000), ("unref_expected", 1000), ("sorted_docs", 3000), ("unsorted_docs", 3000)):
+    for k, lo in (("docs_judged", 10000), ("refs_checked", 20000), ("dups_expected", 1000), ("unref_expected", 1000), ("sorted_docs", 3000), ("unsorted_docs", 3000), ("front_end:sphinx", 150)):
         if c.get(k, 0) < lo:
             m["inconclusive"].append(f"monitor observed only {c.get(k, 0)} '{k}' events (< {lo})")
     mon.require_reach(m, ANCHORS)
